@@ -76,13 +76,24 @@ func runCLI(c *run.Ctx, cs *Case) {
 			return
 		}
 		args = append(args, file)
-		ctx, cancel := context.WithTimeout(context.Background(), 60*time.Second)
-		cmd := exec.CommandContext(ctx, c.RareBin, args...)
-		cmd.Env = append(os.Environ(), "NO_COLOR=1", "TERM=dumb")
 		var stdout, stderr bytes.Buffer
-		cmd.Stdout, cmd.Stderr = &stdout, &stderr
-		err := cmd.Run()
-		cancel()
+		var err error
+		// a child killed from outside (other jobs share the machine) is retried; only a
+		// persistent failure makes the run inconclusive
+		for attempt := 0; attempt < 3; attempt++ {
+			stdout.Reset()
+			stderr.Reset()
+			ctx, cancel := context.WithTimeout(context.Background(), 60*time.Second)
+			cmd := exec.CommandContext(ctx, c.RareBin, args...)
+			cmd.Env = append(os.Environ(), "NO_COLOR=1", "TERM=dumb")
+			cmd.Stdout, cmd.Stderr = &stdout, &stderr
+			err = cmd.Run()
+			cancel()
+			if err == nil {
+				break
+			}
+			c.Count("cli_retries", 1)
+		}
 		os.Remove(file)
 		if err != nil {
 			c.Inconclusive(fmt.Sprintf("rare %v failed: %v: %s", args, err, run.Q(stderr.String())))
